@@ -363,7 +363,7 @@ func TestVerifC19(t *testing.T) {
 	}
 	defer os.RemoveAll(root)
 	cases := c19Cases(maxLen)
-	r.Set("rule", fmt.Sprintf("generated program: every parameter list of length 1..%d over %d kinds (bool, sized/unsized ints, floats, string, slices, pointers, map, chan, func), each as a function and as a pointer-receiver method, plus twins of 2 in 5 of them that share the bare name with a different parameter list (a method on another receiver type, a function in another package) (%d callees), boundary values rotating over the kinds' value tables; built with -gcflags 'all=-N -l' by the installed toolchain(s), every case parked in its callee, one real crash under GOTRACEBACK=all; the real traceback is parsed with source analysis on and off; oracle: each rendered argument matches an independent rendering of the literal passed; raw values identical with analysis on and off; mismatch part: the same dump against the source tree deleted / unparsable / line-shifted / with parameters added or removed / with 0 or 2 receivers / replaced by directories / callees reported under a directory that is under no root: no panic, everything but the typed rendering equal to the un-augmented parse, no rendering when the source is missing or unparsable. programs = toolchains x generated programs; non-trivial = callee with >= 2 parameters or a method", maxLen, len(c19Kinds), len(cases)))
+	r.Set("rule", fmt.Sprintf("generated program: every parameter list of length 1..%d over %d kinds (bool, sized/unsized ints, floats, string, slices, pointers, map, chan, func), each as a function and as a pointer-receiver method, plus twins of 2 in 5 of them that share the bare name with a different parameter list (a method on another receiver type, a function in another package) (%d callees), boundary values rotating over the kinds' value tables; built with -gcflags 'all=-N -l' by the installed toolchain(s), every case parked in its callee, one real crash under GOTRACEBACK=all; the real traceback is parsed with source analysis on and off; oracle: each rendered argument matches an independent rendering of the literal passed; raw values identical with analysis on and off; rebased part: the dump rewritten to name a build tree that still exists but was edited, with the true sources under the GOPATH given in the options: same oracle; mismatch part: the same dump against the source tree deleted / unparsable / line-shifted / with parameters added or removed / with 0 or 2 receivers / replaced by directories / callees reported under a directory that is under no root: no panic, everything but the typed rendering equal to the un-augmented parse, no rendering when the source is missing or unparsable. programs = toolchains x generated programs; non-trivial = callee with >= 2 parameters or a method", maxLen, len(c19Kinds), len(cases)))
 	r.Set("assumptions", []string{"-N -l makes the traceback's argument words accurate", "a shifted line that still falls inside some function cannot be detected from a line number: only harmlessness is required there", "value receivers, variadic parameters, interfaces, structs and arrays are outside the statement's list of kinds"})
 	toolchains := []string{"go"}
 	if r.Thorough() {
@@ -403,70 +403,107 @@ func TestVerifC19(t *testing.T) {
 			r.Report(mk("analysis-changes-raw-fields", "the snapshot with source analysis on differs from the one with analysis off in more than the typed rendering", "raw"))
 		}
 		// index frames by function name
-		frameOf := map[string]*Call{}
-		for _, g := range on.snap.Goroutines {
-			for i := range g.Stack.Calls {
-				c := &g.Stack.Calls[i]
-				frameOf[c.Func.Complete] = c
+		checkCases := func(snap *Snapshot, tag string) {
+			frameOf := map[string]*Call{}
+			for _, g := range snap.Goroutines {
+				for i := range g.Stack.Calls {
+					c := &g.Stack.Calls[i]
+					frameOf[c.Func.Complete] = c
+				}
 			}
-		}
-		for ci := range cases {
-			c := &cases[ci]
-			key := fmt.Sprintf("%s tc%d %s(%v)", c.complete(), ti, func() string {
-				var ks []string
-				for i, k := range c.kinds {
-					ks = append(ks, c19Kinds[k].typ+"="+c19Kinds[k].vals[c.vals[i]].expr)
-				}
-				return strings.Join(ks, ", ")
-			}(), c.method)
-			fr := frameOf[c.complete()]
-			out := "ok"
-			switch {
-			case fr == nil:
-				r.Report(mk("callee-frame-missing", "no frame for callee "+c.name, key))
-				out = "missing"
-			default:
-				wants := c.wants()
-				got := fr.Args.Processed
-				if len(got) != len(wants) {
-					kind := "arity"
-					for _, k := range c.kinds {
-						switch c19Kinds[k].typ {
-						case "map[string]int", "chan int", "func()":
-							kind = "one-word-kind-as-interface:" + strings.Fields(c19Kinds[k].typ)[0]
-						}
+			for ci := range cases {
+				c := &cases[ci]
+				key := fmt.Sprintf("%s%s tc%d %s(%v)", tag, c.complete(), ti, func() string {
+					var ks []string
+					for i, k := range c.kinds {
+						ks = append(ks, c19Kinds[k].typ+"="+c19Kinds[k].vals[c.vals[i]].expr)
 					}
-					v := mk(kind, fmt.Sprintf("%s: %d rendered arguments %q for %d parameters", key, len(got), got, len(wants)), key)
-					v.Expected, v.Observed = strings.Join(wants, " , "), strings.Join(got, " , ")
-					r.Report(v)
-					out = kind
-					break
-				}
-				for i := range wants {
-					if !regexp.MustCompile("^" + wants[i] + "$").MatchString(got[i]) {
-						pk := "receiver"
-						idx := i
-						if c.method {
-							idx--
+					return strings.Join(ks, ", ")
+				}(), c.method)
+				fr := frameOf[c.complete()]
+				out := "ok"
+				switch {
+				case fr == nil:
+					r.Report(mk("callee-frame-missing", "no frame for callee "+c.name, key))
+					out = "missing"
+				default:
+					wants := c.wants()
+					got := fr.Args.Processed
+					if len(got) != len(wants) {
+						kind := "arity"
+						for _, k := range c.kinds {
+							switch c19Kinds[k].typ {
+							case "map[string]int", "chan int", "func()":
+								kind = "one-word-kind-as-interface:" + strings.Fields(c19Kinds[k].typ)[0]
+							}
 						}
-						if idx >= 0 {
-							pk = c19Kinds[c.kinds[idx]].typ
-						}
-						v := mk("value:"+pk, fmt.Sprintf("%s: argument %d rendered %q, the program passed %s", key, i, got[i], wants[i]), key)
+						v := mk(kind, fmt.Sprintf("%s: %d rendered arguments %q for %d parameters", key, len(got), got, len(wants)), key)
 						v.Expected, v.Observed = strings.Join(wants, " , "), strings.Join(got, " , ")
 						r.Report(v)
-						out = "value:" + pk
+						out = kind
 						break
 					}
+					for i := range wants {
+						if !regexp.MustCompile("^" + wants[i] + "$").MatchString(got[i]) {
+							pk := "receiver"
+							idx := i
+							if c.method {
+								idx--
+							}
+							if idx >= 0 {
+								pk = c19Kinds[c.kinds[idx]].typ
+							}
+							v := mk("value:"+pk, fmt.Sprintf("%s: argument %d rendered %q, the program passed %s", key, i, got[i], wants[i]), key)
+							v.Expected, v.Observed = strings.Join(wants, " , "), strings.Join(got, " , ")
+							r.Report(v)
+							out = "value:" + pk
+							break
+						}
+					}
+				}
+				if out == "ok" && fr != nil {
+					out = "ok " + h.Hash(strings.Join(c.wants(), ","))
+				}
+				r.Record(key, len(c.kinds) >= 2 || c.method, out)
+				if ci%211 == 3 && fr != nil {
+					r.Sample(map[string]any{"callee": key, "rendered": fr.Args.Processed, "raw": fr.Args.String()})
 				}
 			}
-			if out == "ok" && fr != nil {
-				out = "ok " + h.Hash(strings.Join(c.wants(), ","))
+		}
+		mkBase := mk
+		checkCases(on.snap, "")
+		// ---- rebased sources: the dump says the program was built from one tree (which still
+		// exists but has been edited since: every callee has one more parameter), the local
+		// GOPATH given in the options holds the sources it was really built from ----
+		if ti == 0 {
+			build := filepath.Join(root, "buildtree", "src", "example.com", "vp")
+			snapDir := filepath.Join(root, "snap", "src", "example.com", "vp")
+			reSig := regexp.MustCompile(`(?m)^func (\(r \*[TU]\) )?([fm]\d+)\(`)
+			for _, f := range append(append([]string{}, files...), filepath.Join(dir, "main.go")) {
+				b, err := os.ReadFile(f)
+				if err != nil {
+					continue
+				}
+				rel := strings.TrimPrefix(f, dir+"/")
+				for _, dst := range []string{filepath.Join(snapDir, rel), filepath.Join(build, rel)} {
+					_ = os.MkdirAll(filepath.Dir(dst), 0o755)
+				}
+				_ = os.WriteFile(filepath.Join(snapDir, rel), b, 0o644)
+				_ = os.WriteFile(filepath.Join(build, rel), []byte(reSig.ReplaceAllString(string(b), "func ${1}${2}(extra string, ")), 0o644)
 			}
-			r.Record(key, len(c.kinds) >= 2 || c.method, out)
-			if ci%211 == 3 && fr != nil {
-				r.Sample(map[string]any{"callee": key, "rendered": fr.Args.Processed, "raw": fr.Args.String()})
+			dump2 := bytes.ReplaceAll(dump, []byte(dir+"/"), []byte(build+"/"))
+			reb := scanOnce(bytes.NewReader(dump2), &Opts{GuessPaths: true, AnalyzeSources: true, NameArguments: true, LocalGOPATHs: []string{filepath.Join(root, "snap")}})
+			if reb.panicked != "" || reb.snap == nil {
+				r.Report(mkBase("rebased:panic-or-no-snapshot", "rebased sources: "+firstLine(reb.panicked), "rebased"))
+			} else {
+				mk = func(fp, msg, key string) *h.Viol {
+					return mkBase("rebased:"+fp, "sources rebased onto the local GOPATH: "+msg, key)
+				}
+				checkCases(reb.snap, "rebased ")
+				mk = mkBase
 			}
+			_ = os.RemoveAll(filepath.Join(root, "buildtree"))
+			_ = os.RemoveAll(filepath.Join(root, "snap"))
 		}
 		// ---- mismatching sources ----
 		if ti == 0 {
@@ -523,8 +560,12 @@ func c19Mismatch(r *h.Run, dir string, files []string, cases []c19Case, dump []b
 		{"empty-file", rewrite(func(s string) string { return "package main\n" }), true},
 		{"shifted-3-lines", rewrite(func(s string) string { return strings.Replace(s, "package main\n", "package main\n\n\n\n", 1) }), false},
 		{"shifted-1-line", rewrite(func(s string) string { return strings.Replace(s, "package main\n", "package main\n\n", 1) }), false},
-		{"parameter-added", rewrite(func(s string) string { return regexp.MustCompile(`(?m)^func (\(r \*T\) )?([fm]\d+)\(`).ReplaceAllString(s, "func ${1}${2}(extra int, ") }), false},
-		{"parameters-removed", rewrite(func(s string) string { return regexp.MustCompile(`(?m)^func (\(r \*T\) )?([fm]\d+)\([^)]*\)`).ReplaceAllString(s, "func ${1}${2}()") }), false},
+		{"parameter-added", rewrite(func(s string) string {
+			return regexp.MustCompile(`(?m)^func (\(r \*T\) )?([fm]\d+)\(`).ReplaceAllString(s, "func ${1}${2}(extra int, ")
+		}), false},
+		{"parameters-removed", rewrite(func(s string) string {
+			return regexp.MustCompile(`(?m)^func (\(r \*T\) )?([fm]\d+)\([^)]*\)`).ReplaceAllString(s, "func ${1}${2}()")
+		}), false},
 		{"two-receivers", rewrite(func(s string) string { return strings.ReplaceAll(s, "func (r *T) ", "func (r, r2 *T) ") }), false},
 		{"no-receiver", rewrite(func(s string) string { return strings.ReplaceAll(s, "func (r *T) ", "func () ") }), false},
 		{"directory-instead-of-file", func() {
